@@ -256,6 +256,9 @@ pub enum Ret {
     Err(i32, String),
     /// a result string that is not JSON (labelled sub-domain, see DESIGN C03 R)
     NonJson,
+    /// recursion chain for stream folds: echoes its trigger (args[0], an object) one level deeper:
+    /// {a: "rec:<hash>", lvl: trigger.lvl + 1, n: 0 while lvl + 1 < depth else 7, p: next peer}
+    RecChain(u8, Vec<String>),
 }
 
 /// Shapes known to the generator (what lens paths make sense).
@@ -292,6 +295,7 @@ impl Ret {
             Ret::Const(_) => Shape::Unknown,
             Ret::Echo(i) => arg_shapes.get(*i as usize).cloned().unwrap_or(Shape::Unknown),
             Ret::Err(..) | Ret::NonJson => Shape::Unknown,
+            Ret::RecChain(..) => Shape::SmallObj,
         }
     }
     pub fn fails(&self) -> bool {
@@ -336,6 +340,12 @@ pub fn serve(spec: &Ret, func: &str, args: &[Value]) -> (i32, String) {
         Ret::Echo(i) => args.get(*i as usize).cloned().unwrap_or(Value::Null),
         Ret::Err(code, msg) => return (*code, json!(format!("{}:{}", msg, h)).to_string()),
         Ret::NonJson => return (0, format!("not json {}:{}", func, h)),
+        Ret::RecChain(depth, peers) => {
+            let lvl = args.first().and_then(|a| a.get("lvl")).and_then(|x| x.as_u64()).unwrap_or(0) + 1;
+            let n = if lvl < *depth as u64 { 0 } else { 7 };
+            let p = peers.get((lvl as usize + h.len() + h.as_bytes()[0] as usize) % peers.len().max(1)).cloned().unwrap_or_default();
+            json!({"a": format!("rec:{}", h), "lvl": lvl, "n": n, "p": p})
+        }
     };
     (0, v.to_string())
 }
